@@ -31,7 +31,7 @@ from ..driver import result, ddmin_list
 from ..seams import SEAMS, Cancel, NO_CANCEL, LineCancel
 from .c05 import hygiene, render, P0
 
-FORMATS = ["json", "json", "json5", "yaml", "plist", "xml", "html", "csv"]
+FORMATS = ["json", "json", "json5", "yaml", "yaml", "plist", "xml", "html", "csv"]
 EXT = {"json": ".json", "json5": ".json5", "yaml": ".yaml", "xml": ".xml", "html": ".html", "plist": ".plist",
        "csv": ".csv"}
 ARCH = platform.machine()
@@ -40,8 +40,11 @@ HAVE_SETARCH = shutil.which("setarch") is not None
 
 
 def gen_values(w):
-    if w.random() < 0.25:
+    c = w.random()
+    if c < 0.25:
         return gen.gen_renamed_dicts(w)
+    if c < 0.40:
+        return gen.gen_config_pair(w)      # multi-line strings (block literals) and nested single-line strings
     a = gen.gen_container(w, w.choice([1, 2, 2, 3]), "json", w.choice([2, 3, 4]))
     b = gen.mutate(w, a, intensity=w.choice([1, 2, 3])) if w.random() < 0.85 else gen.gen_container(w, 2)
     return a, b
@@ -60,7 +63,8 @@ def gen_texts(w, fmt, values=None):
         a = gen.gen_xml(w, w.choice([1, 2]), html=(fmt == "html"))
         b = gen.mutate_xml(w, a)
         return gen.xml_text(a), gen.xml_text(b)
-    rows = [[w.choice(["a", "b", "ab", "1", "x y", ""]) for _ in range(w.randint(1, 3))] for _ in range(w.randint(1, 4))]
+    rows = [[w.choice(["a", "b", "ab", "1", "x y", "", "a\u2028b", "f\x0cf"]) for _ in range(w.randint(1, 3))]
+            for _ in range(w.randint(1, 4))]
     rows2 = [list(r) for r in rows]
     if rows2 and w.random() < 0.8:
         r = w.randrange(len(rows2))
